@@ -29,6 +29,7 @@ func init() {
 			"C09.R4 unconditional refresh in the distribution loop; per-processor trigger-list map; merge loop reads the keys of the receiver's own set; fan-out passes the receiver's own list",
 			"C09.R6 the secondary cutter creates one record per listed frame; a skip test is accepted only if, as polynomials, it removes no position of the window in which primaries are found",
 			"C09.R5 results of edit calls with request-derived arguments are used",
+			"C09.R8 when the connection table stores a value per (receiver, source) pair, every reader that walks a receiver's entries tests the stored value (an entry that is present but false is not a connection)",
 		},
 		Assumptions: []string{"TriggerBroker and its fields sources/nconnections/nchannels/latestPrimaries are name-keyed anchors"},
 		Run:         runC09,
